@@ -225,6 +225,58 @@ def vlog_from_trace(trace):
     return [vals.get(i, 0) for i in range(n)]
 
 
+
+_native_lock = None
+_native_archive = {}
+
+
+def native_archive(config_key, defs):
+    """ASan/UBSan-instrumented static library of ALL src/**/*.c of the current
+    REPO tree (object cache keyed by content hash), used to resolve whatever a
+    native replay needs beyond its listed units."""
+    import threading
+    global _native_lock
+    if _native_lock is None:
+        _native_lock = threading.Lock()
+    with _native_lock:
+        if config_key in _native_archive:
+            return _native_archive[config_key]
+        cdir = os.path.join(BUILD, "nativelib")
+        os.makedirs(cdir, exist_ok=True)
+        srcs = sorted(glob.glob(os.path.join(REPO, "src", "**", "*.c"), recursive=True))
+        flags = ["-g", "-O1", "-w", "-fsanitize=address,undefined", "-fno-sanitize-recover=undefined",
+                 "-I" + os.path.join(REPO, "inc"), "-I" + os.path.join(REPO, "src")] + defs
+        hdr_h = hashlib.sha1()
+        for h in sorted(glob.glob(os.path.join(REPO, "inc", "*.h")) + glob.glob(os.path.join(REPO, "src", "*.h"))):
+            hdr_h.update(open(h, "rb").read())
+        hdr_h.update(" ".join(flags[5:]).encode())
+        hk = hdr_h.hexdigest()
+        jobs = []
+        objs = []
+        for sfile in srcs:
+            k = hashlib.sha1(open(sfile, "rb").read() + hk.encode()).hexdigest()[:20]
+            o = os.path.join(cdir, k + ".o")
+            objs.append(o)
+            if not os.path.exists(o):
+                jobs.append((sfile, o))
+
+        def cc1(j):
+            rc, o_, e_, dt = run(["gcc"] + flags + ["-c", j[0], "-o", j[1] + ".tmp"], 300, mem_gb=1 << 20)
+            if rc == 0:
+                os.replace(j[1] + ".tmp", j[1])
+            return rc
+        if jobs:
+            with ThreadPoolExecutor(max_workers=max(2, NCPU - 2)) as ex:
+                list(ex.map(cc1, jobs))
+        objs = [o for o in objs if os.path.exists(o)]
+        ar = os.path.join(cdir, "libnative_%s.a" % hashlib.sha1((config_key + hk + "".join(objs)).encode()).hexdigest()[:12])
+        if not os.path.exists(ar):
+            run(["ar", "rcs", ar + ".tmp"] + objs, 300, mem_gb=1 << 20)
+            os.replace(ar + ".tmp", ar)
+        _native_archive[config_key] = ar
+        return ar
+
+
 def native_build_and_run(q, wd, values, tag="replay"):
     """Build the harness natively against the real sources and run it on the
     values.  Returns (reproduced: bool|None, text)."""
@@ -237,7 +289,11 @@ def native_build_and_run(q, wd, values, tag="replay"):
     cmd = ["gcc", "-g", "-O0", "-w", "-fsanitize=address,undefined", "-fno-sanitize-recover=undefined",
            "-I" + os.path.join(REPO, "inc"), "-I" + os.path.join(REPO, "src"), "-I" + HARN, "-I" + REPO,
            "-DNATIVE_REPLAY=1"] + config_defs(q) + q.defs + ["-o", exe] + srcs
-    rc, o, e, dt = run(cmd, 300, cwd=wd)
+    try:
+        cmd.append(native_archive(q.config, config_defs(q)))
+    except Exception as ex_:
+        pass
+    rc, o, e, dt = run(cmd, 300, cwd=wd, mem_gb=1 << 20)
     if rc != 0:
         return None, "native build failed: " + (o + e)[-2000:], -1
     env = dict(os.environ)
